@@ -72,6 +72,17 @@ def evaluate_all(limit_orders=None):
             self.calls.append((key, replication_nr))
             stream.set_seed(777000 + replication_nr)
 
+    class Recording2(SimpleStreamUpdater):
+        """a fallback derived from the standard one that overrides it"""
+
+        def __init__(self):
+            super().__init__()
+            self.calls = []
+
+        def update_seed(self, key, stream, replication_nr):
+            self.calls.append((key, replication_nr))
+            stream.set_seed(777000 + replication_nr)
+
     for names in NAME_SETS:
         orders = list(itertools.permutations(names))
         if limit_orders:
@@ -136,7 +147,7 @@ def evaluate_all(limit_orders=None):
                                         r, ra[0], rx[0]))
             # ---------------- StreamSeedUpdater
             for tname, table in tables_for(names):
-                for fb in ("default", "replaced"):
+                for fb in ("default", "replaced", "replaced-subclass"):
                     per_order = []
                     for order in orders:
                         st = fresh(names)
@@ -144,8 +155,9 @@ def evaluate_all(limit_orders=None):
                         upd = StreamSeedUpdater({k: list(v) for k, v
                                                  in table.items()})
                         recorder = None
-                        if fb == "replaced":
-                            recorder = Recording()
+                        if fb != "default":
+                            recorder = Recording() if fb == "replaced" \
+                                else Recording2()
                             upd.set_fallback_stream_updater(recorder)
                         rec = {}
                         # per stream, so one refusal does not hide the others
@@ -279,6 +291,49 @@ def evaluate_all(limit_orders=None):
                 i2.get_stream("default").seed() == 4711 + r:
             bad.append(("default-stream-of-StreamInformation-depends-on-"
                         "earlier-instances",))
+    # ---------------- looking at the configuration does not change it
+    for r in (0, 1):
+        info = StreamSeedInformation()
+        info.add_stream("arrivals", MersenneTwister(3))
+        info.add_stream("service", MersenneTwister(4))
+        info.add_seed_values("arrivals", [9001, 9002])
+        upd_before = StreamSeedUpdater(info.get_seeds())
+        table0 = {k: list(v) for k, v in info.get_seeds().items()}
+        looks = []
+        for nm in ("arrivals", "service", "default", "nobody"):
+            looks.append(outcome(lambda: info.get_seed_values(nm)))
+        outcome(lambda: info.get_seeds())
+        outcome(lambda: info.get_streams())
+        if {k: list(v) for k, v in info.get_seeds().items()} != table0:
+            bad.append(("reading-the-seed-table-changed-it", looks,
+                        sorted(info.get_seeds()), sorted(table0)))
+        for upd in (upd_before, StreamSeedUpdater(info.get_seeds())):
+            for nm in ("service", "default"):
+                s = info.get_stream(nm)
+                want = MersenneTwister(s.original_seed())
+                SimpleStreamUpdater().update_seed(nm, want, r)
+                o = outcome(lambda: upd.update_seed(nm, s, r))
+                if o != "ok" or s.seed() != want.seed():
+                    bad.append(("unlisted-stream-not-served-by-the-fallback-"
+                                "after-a-query", nm, r, o, s.seed(),
+                                want.seed()))
+    # ---------------- one updater object serves streams of several owners:
+    # the seed depends on the stream's own original seed, not on which stream
+    # with that name the updater served before
+    for r in (0, 1, 3):
+        for upd in (SimpleStreamUpdater(), StreamSeedUpdater({})):
+            for first, second in ((20, 31), (31, 20), (20, 20)):
+                a = MersenneTwister(first)
+                b = MersenneTwister(second)
+                upd.update_seed("default", a, r)
+                draws(a)
+                upd.update_seed("default", b, r)
+                want = MersenneTwister(second)
+                SimpleStreamUpdater().update_seed("default", want, r)
+                if b.seed() != want.seed() or draws(b) != draws(want):
+                    bad.append(("seed-depends-on-streams-served-before",
+                                type(upd).__name__, r, first, second,
+                                b.seed(), want.seed()))
     # ---------------- seed lists replaced through add_seed_values: the table
     # is a function of the last list given per stream, not of the history
     LISTS = ([11, 12, 13, 14], [21, 22], [31], [], [41, 42, 43, 44, 45])
